@@ -372,7 +372,8 @@ def _site_spec(rng, **kw):
                              mode='C')
     spec['blinds'] = [1, 2] + [0] * (spec['n'] - 2)
     spec['sb'] = spec['bb'] = 2
-    spec['stacks'] = [rng.choice([rng.randint(5, 40), rng.randint(40, 400)]) for _ in range(spec['n'])]
+    big = 25 if rng.random() < 0.4 else 1           # stacks in the thousands (thousands separators in the logs)
+    spec['stacks'] = [big * rng.choice([rng.randint(5, 40), rng.randint(40, 400)]) for _ in range(spec['n'])]
     spec['werr'] = False
     return spec
 
